@@ -3,6 +3,10 @@
 #ifndef TETL_TYPE_TRAITS_MAKE_SIGNED_HPP
 #define TETL_TYPE_TRAITS_MAKE_SIGNED_HPP
 
+#include <etl/_type_traits/conditional.hpp>
+#include <etl/_type_traits/is_enum.hpp>
+#include <etl/_type_traits/remove_cv.hpp>
+
 namespace etl {
 
 namespace detail {
@@ -60,6 +64,64 @@ struct make_signed<unsigned long long> {
     using type = signed long long;
 };
 
+template <>
+struct make_signed<char> {
+    using type = signed char;
+};
+
+/// The signed/unsigned integer type of lowest rank with the given size
+/// (wchar_t, char8_t, char16_t, char32_t and enumerations map to it).
+template <decltype(sizeof(0)) Size, bool Signed>
+struct make_integer_by_size {
+    // clang-format off
+    using signed_type =
+        conditional_t<Size == sizeof(signed char), signed char,
+        conditional_t<Size == sizeof(short), short,
+        conditional_t<Size == sizeof(int), int,
+        conditional_t<Size == sizeof(long), long, long long>>>>;
+    using unsigned_type =
+        conditional_t<Size == sizeof(unsigned char), unsigned char,
+        conditional_t<Size == sizeof(unsigned short), unsigned short,
+        conditional_t<Size == sizeof(unsigned int), unsigned int,
+        conditional_t<Size == sizeof(unsigned long), unsigned long, unsigned long long>>>>;
+    // clang-format on
+    using type = conditional_t<Signed, signed_type, unsigned_type>;
+};
+
+template <typename T>
+inline constexpr bool make_integer_uses_size = is_enum_v<T>;
+template <>
+inline constexpr bool make_integer_uses_size<wchar_t> = true;
+template <>
+inline constexpr bool make_integer_uses_size<char8_t> = true;
+template <>
+inline constexpr bool make_integer_uses_size<char16_t> = true;
+template <>
+inline constexpr bool make_integer_uses_size<char32_t> = true;
+
+template <typename T, bool = make_integer_uses_size<T>>
+struct make_signed_select : make_signed<T> { };
+template <typename T>
+struct make_signed_select<T, true> : make_integer_by_size<sizeof(T), true> { };
+
+/// Applies the cv-qualifiers of From to To.
+template <typename From, typename To>
+struct make_integer_copy_cv {
+    using type = To;
+};
+template <typename From, typename To>
+struct make_integer_copy_cv<From const, To> {
+    using type = To const;
+};
+template <typename From, typename To>
+struct make_integer_copy_cv<From volatile, To> {
+    using type = To volatile;
+};
+template <typename From, typename To>
+struct make_integer_copy_cv<From const volatile, To> {
+    using type = To const volatile;
+};
+
 } // namespace detail
 
 /// If T is an integral (except bool) or enumeration type, provides the
@@ -76,7 +138,8 @@ struct make_signed<unsigned long long> {
 ///
 /// \ingroup type_traits
 template <typename Type>
-struct make_signed : etl::detail::make_signed<Type> { };
+struct make_signed
+    : etl::detail::make_integer_copy_cv<Type, typename etl::detail::make_signed_select<etl::remove_cv_t<Type>>::type> { };
 
 template <typename T>
 using make_signed_t = typename make_signed<T>::type;
